@@ -135,6 +135,14 @@ def storeStep' (st : StoreState) (ws : List String) : StoreState × String × St
   -- `txnrot`: a transaction during which (between its WAL append and its apply) the memtable is rotated and the
   -- rotated one flushed by someone else: for the specification an ordinary committed transaction
   let ws := match ws with | "txnrot" :: r => "txn" :: r | _ => ws
+  -- `beginover r point writes`: reader `r` begins (its begin is held at a yield point), then the transaction commits
+  -- and everything is flushed and compacted: for the specification `begin r` followed by `txn writes`
+  match ws with
+  | "beginover" :: r :: _ :: writes =>
+    let (st1, _, _) := storeStep st ["begin", r]
+    let (st2, m, sp) := storeStep st1 ("txn" :: writes)
+    ({ st2 with lastTxn := false }, m, sp)
+  | _ =>
   let (st', m, sp) := storeStep st ws
   -- `lastTxn` survives only the transaction that set it
   let keep := match ws with | "txn" :: _ => true | _ => false
